@@ -1,2 +1,102 @@
-(* Properties_C03.v -- placeholder, theorems follow *)
-From TP Require Import Term.
+(* Properties_C03.v — C03: after screen.draw(canvas) the terminal displays
+   exactly that canvas. *)
+From TP Require Import Base Elem Term Screen VT Oracle P_Sync P_Step P_Bytes P_Run P_Canvas P_Screen Tie_Output Tie_Charset.
+From Coq Require Import Lia.
+Local Open Scope N_scope.
+
+(* One draw, from any state in which belief and terminal agree (in particular
+   the very first draw on a terminal in an unknown state, and any draw after
+   other output), the terminal having the canvas's size: afterwards every cell
+   displays exactly the element the canvas holds there.  Holds for deferred-wrap
+   and no-wrap terminals unconditionally, and for immediate-wrap terminals when
+   the draw does not transmit the bottom-right cell (known finding D7). *)
+Theorem C03_draw :
+  forall cfg beh, (b_unicode_all beh = true -> unicode_all cfg = true) ->
+  forall s st v c,
+    Sync beh st v -> ts_size st = (cw c, ch c) -> canvas_elems_wf c ->
+    (same_size s c = true -> Frame (last_frame s) v) ->
+    (wrap cfg <> Immediate \/
+     element_eqb (cv_get (prev_frame s c) (cw c - 1) (ch c - 1)) (cv_get c (cw c - 1) (ch c - 1)) = true) ->
+    let st' := snd (fst (draw beh s st c)) in
+    let v' := vt_bytes cfg v (render_all (snd (draw beh s st c))) in
+    Sync beh st' v' /\ Frame c v' /\ last_frame (fst (fst (draw beh s st c))) = c.
+Proof.
+  intros cfg beh Huni s st v c S Hsz Hwf Hf Hns st' v'.
+  destruct (draw_correct cfg beh Huni s st v c S Hsz Hwf Hf Hns) as (H1 & H2 & H3 & _).
+  split; [exact H1|]. split; [exact H2|exact H3].
+Qed.
+Print Assumptions C03_draw.
+
+(* every sequence of canvases, with a change of terminal size (to the canvas's
+   size, the terminal adopting an arbitrary cursor position) before each draw *)
+Definition frame_step (cfg : vtcfg) (beh : behaviour) (x : screen * tstate * vt) (f : canvas * pt)
+  : screen * tstate * vt :=
+  let '(s, st, v) := x in
+  let '(c, adopt) := f in
+  let st1 := fst (step beh st (SetSize (cw c, ch c))) in
+  let v1 := vt_resize v (cw c, ch c) adopt in
+  (fst (fst (draw beh s st1 c)), snd (fst (draw beh s st1 c)),
+   vt_bytes cfg v1 (render_all (snd (draw beh s st1 c)))).
+
+Theorem C03_converges :
+  forall cfg beh, (b_unicode_all beh = true -> unicode_all cfg = true) ->
+  wrap cfg <> Immediate ->
+  forall frames s st v,
+    Sync beh st v -> Frame (last_frame s) v ->
+    (forall f, In f frames -> canvas_elems_wf (fst f)) ->
+    let '(s', st', v') := fold_left (frame_step cfg beh) frames (s, st, v) in
+    Sync beh st' v' /\ Frame (last_frame s') v'.
+Proof.
+  intros cfg beh Huni Hw. induction frames as [|[c a] r IH]; intros s st v S F Hwf.
+  - cbn. split; [exact S|exact F].
+  - cbn [fold_left]. unfold frame_step at 2.
+    destruct (sync_resize beh st v (cw c, ch c) a S) as (S1 & _ & _).
+    assert (F1 : same_size s c = true -> Frame (last_frame s) (vt_resize v (cw c, ch c) a)).
+    { intros _ x y Hx Hy. exact (F x y Hx Hy). }
+    assert (Hc : canvas_elems_wf c) by (apply (Hwf (c, a)); left; reflexivity).
+    destruct (draw_correct cfg beh Huni s _ _ c S1 eq_refl Hc F1 (or_introl Hw)) as (S2 & F2 & L2 & _).
+    apply IH; [exact S2|rewrite L2; exact F2|intros f Hf; apply Hwf; right; exact Hf].
+Qed.
+Print Assumptions C03_converges.
+
+(* the frame a screen remembers after a draw is the canvas just drawn, so the
+   statement above says: after every draw the display is that canvas *)
+Theorem C03_remembers :
+  forall cfg beh x c a, last_frame (fst (fst (frame_step cfg beh x (c, a)))) = c.
+Proof.
+  intros cfg beh [[s st] v] c a. unfold frame_step, draw. cbn [fst].
+  destruct (run beh _ (draw_ops s c)). reflexivity.
+Qed.
+
+(* the very first draw, on a terminal of which nothing is known but that it is at
+   rest with G0=ASCII *)
+Theorem C03_first_draw :
+  forall cfg beh, (b_unicode_all beh = true -> unicode_all cfg = true) ->
+  wrap cfg <> Immediate ->
+  forall v0 c adopt, vt0_ok v0 -> canvas_elems_wf c ->
+    let '(s', st', v') := frame_step cfg beh (init_screen, init_tstate, v0) (c, adopt) in
+    Frame c v'.
+Proof.
+  intros cfg beh Huni Hw v0 c adopt H0 Hc.
+  pose proof (C03_converges cfg beh Huni Hw [(c, adopt)] init_screen init_tstate v0 (sync_init beh v0 H0)) as H.
+  assert (F0 : Frame (last_frame init_screen) v0) by (intros x y Hx; cbn in Hx; lia).
+  specialize (H F0). cbn [fold_left] in H.
+  pose proof (C03_remembers cfg beh (init_screen, init_tstate, v0) c adopt) as L.
+  destruct (frame_step cfg beh (init_screen, init_tstate, v0) (c, adopt)) as [[s' st'] v'].
+  cbn [fst] in L. destruct H as (_ & F); [intros f [Hf|[]]; subst f; exact Hc|].
+  rewrite L in F. exact F.
+Qed.
+Print Assumptions C03_first_draw.
+
+(* known finding D7: on a terminal that wraps immediately the statement is false -
+   a 1x2 canvas with a non-blank cell at (0,1) *)
+Definition d7_canvas : canvas :=
+  cv_set (blank_canvas 1 2) 0 1 (mkElem (mkGlyph CsAscii 86 0 0) default_attr).
+Definition d7_vt0 : vt := set_vsize vt0_clean (0, 0).
+Theorem C03_immediate_refuted_known :
+  let cfg := mkCfg Immediate true false in
+  let beh := mkBeh false false false false false in
+  let '(s', st', v') := frame_step cfg beh (init_screen, init_tstate, vt0_clean) (d7_canvas, (0, 0)) in
+  cell_eqb (cells v' (0, 1)) (display_of (cv_get d7_canvas 0 1)) = false.
+Proof. vm_compute. reflexivity. Qed.
+Print Assumptions C03_immediate_refuted_known.
